@@ -28,7 +28,7 @@ struct T4 : TB { __m256i creg, areg, breg; };
 #ifdef __AVX512__
 struct T8 : TB { __m512i creg, areg, breg; };
 #endif
-struct Row { const char *decl; int line; OpK op; int L; Kind A, B, C; void (*call)(TB &); };
+struct Row { const char *decl; int line; OpK op; int L; Kind A, B, C; void (*call)(TB &); void (*call_ca)(TB &); void (*call_cb)(TB &); /* result register = first / second register operand */ };
 static const Row ROWS[] = {
 #include "c17_table.inc"
 };
@@ -83,7 +83,7 @@ static uint64_t ref_op(OpK op, uint64_t a, uint64_t b) { return op == OP_COPY ? 
 static int form_of(const Row &r, const Case &c)
 {
     int f = (int)((c.v[P_JUNK] >> 40) % 8); if (f > 4) f = 0;
-    const bool big = (r.A == K_ARR_STRIDE && c.v[P_SA] >= (1ull << 32)) || (r.B == K_ARR_STRIDE && c.v[P_SB] >= (1ull << 32)) || (r.C == K_ARR_STRIDE && c.v[P_SC] >= (1ull << 32));
+    const bool big = (r.A == K_ARR_STRIDE && c.v[P_SA] >= (1ull << 24)) || (r.B == K_ARR_STRIDE && c.v[P_SB] >= (1ull << 24)) || (r.C == K_ARR_STRIDE && c.v[P_SC] >= (1ull << 24));
     if (big) return 0;
     if (f == 1 && !(r.A >= K_ARR_UNIT && r.B >= K_ARR_UNIT)) f = 0;
     if (f == 2) {
@@ -93,6 +93,8 @@ static int form_of(const Row &r, const Case &c)
     }
     if (f == 3 && !(r.C >= K_ARR_UNIT && ((r.A == K_SCALAR && scalar_by_value(r, 0)) || (r.B == K_SCALAR && scalar_by_value(r, 1))))) f = 0;
     if (f == 4 && r.C < K_ARR_UNIT) f = 0;
+    if (f == 0 && ((c.v[P_JUNK] >> 43) & 3) == 1 && r.call_ca) f = 5; // the result register is the first register operand
+    if (f == 0 && ((c.v[P_JUNK] >> 43) & 3) == 2 && r.call_cb) f = 6; // ... the second register operand
     return f;
 }
 static bool run_row(const Row &r, const Case &c, uint64_t junk, std::vector<uint64_t> &outlanes, std::string &why, bool probe_statics = false)
@@ -154,15 +156,15 @@ static bool run_row(const Row &r, const Case &c, uint64_t junk, std::vector<uint
     static thread_local uint64_t g_static_probe = 0;
     static thread_local std::vector<uint32_t> row_calls(NROWS, 0);
     const uint32_t ncalls = row_calls[&r - ROWS]++;   // the first call of a routine is never measured (one-time initialisation is legitimate)
-    const bool probe = !SAN && probe_statics && ncalls >= 1 && ((++g_static_probe & 7) == 0); // (not in sanitizer builds: their runtime keeps bookkeeping in the executable's own data segment)
+    const bool probe = !SAN && !pbt::in_concurrent() && probe_statics && ncalls >= 1 && ((++g_static_probe & 7) == 0); // (not in sanitizer builds: their runtime keeps bookkeeping in the executable's own data segment)
     uint64_t cs0 = probe ? statics::checksum() : 0;
-    r.call(*t);
+    if (form == 5) r.call_ca(*t); else if (form == 6) r.call_cb(*t); else r.call(*t);
     if (probe && statics::checksum() != cs0) { why = "wrote to static storage of the process (a hidden buffer or memo): memory other than the designated output positions changed during the call"; return false; }
     outlanes.resize(L);
     if (C.k == K_REG) {
-        if (L == 4) _mm256_store_si256((__m256i *)lc, t4.creg);
+        if (L == 4) _mm256_store_si256((__m256i *)lc, form == 5 ? t4.areg : form == 6 ? t4.breg : t4.creg);
 #ifdef __AVX512__
-        else _mm512_store_si512(lc, t8.creg);
+        else _mm512_store_si512(lc, form == 5 ? t8.areg : form == 6 ? t8.breg : t8.creg);
 #endif
         for (int k = 0; k < L; k++) outlanes[k] = lc[k];
     } else for (int k = 0; k < L; k++) outlanes[k] = C.arena[C.pos[k]].fe;
@@ -193,13 +195,13 @@ static bool body_row(const Case &c, Ctx &ctx)
     ctx.cls(r.decl);
     bool nt = false;
     auto st = [&](Kind k, uint64_t s, const uint64_t *idx, bool out) {
-        if (k == K_ARR_STRIDE && s != 1 && s != 3) { nt = true; ctx.cls(s == 0 ? "shape:stride-0" : s >= (1ull << 32) ? "shape:stride>=2^32" : s >= 61 ? "shape:large-stride" : "shape:stride-not-1-or-3"); }
+        if (k == K_ARR_STRIDE && s != 1 && s != 3) { nt = true; ctx.cls(s == 0 ? "shape:stride-0" : s >= (1ull << 32) ? "shape:stride>=2^32" : s >= (1ull << 24) ? "shape:stride-whose-multiples-cross-2^31-or-2^32" : s >= 61 ? "shape:large-stride" : "shape:stride-not-1-or-3"); }
         if (k == K_ARR_IDX) { bool id = true, rep = false; for (int i = 0; i < r.L; i++) { if (idx[i] != (uint64_t)i) id = false; for (int j = 0; j < i; j++) if (idx[i] == idx[j]) rep = true; }
             if (!id) { nt = true; ctx.cls(rep ? "shape:index-array-with-repeats" : out ? "shape:permuted/sparse-output-index" : "shape:permuted/sparse-input-index"); } }
     };
     st(r.A, c.v[P_SA], &c.v[P_IA], false); st(r.B, c.v[P_SB], &c.v[P_IB], false); st(r.C, c.v[P_SC], &c.v[P_IC], true);
     for (int k = 0; k < r.L; k++) if (c.v[P_AV + k] >= PR || c.v[P_BV + k] >= PR) { nt = true; ctx.cls("shape:non-canonical-operand"); break; }
-    { static const char *FN[] = {nullptr, "form:both-inputs-one-array(same-pointer)", "form:output-array-is-first-input(in-place)", "form:by-value-scalar-lives-in-an-output-cell", "form:exact-output-extent-at-guard-page"};
+    { static const char *FN[] = {nullptr, "form:both-inputs-one-array(same-pointer)", "form:output-array-is-first-input(in-place)", "form:by-value-scalar-lives-in-an-output-cell", "form:exact-output-extent-at-guard-page", "form:result-register-is-the-first-register-operand", "form:result-register-is-the-second-register-operand"};
       int f = form_of(r, c); if (f) { nt = true; ctx.cls(FN[f]); } }
     ctx.nontrivial = nt;
     std::vector<uint64_t> o1, o2; std::string why;
@@ -247,14 +249,18 @@ static rc::Gen<std::vector<uint64_t>> gen_row_case(std::vector<int> rows)
         static const std::vector<uint64_t> SI{0, 1, 2, 3, 4, 5, 7, 61, 1000}, SO{1, 2, 3, 4, 5, 7, 61, 1000};
         v[P_SA] = *rc::gen::elementOf(SI); v[P_SB] = *rc::gen::elementOf(SI); v[P_SC] = *rc::gen::elementOf(SO);
         // strides that do not fit 32 bits (sparse arenas): an index computed in 32-bit arithmetic lands on another cell
-        if (*g::irange(0, 15) == 0) { int w = *g::irange(0, 2); uint64_t big = (1ull << 32) + (uint64_t)*g::irange(1, 5); if (w == 0) v[P_SA] = big; else if (w == 1) v[P_SB] = big; else v[P_SC] = big; }
+        if (*g::irange(0, 15) == 0) { int w = *g::irange(0, 2); uint64_t big = (1ull << 32) + (uint64_t)*g::irange(1, 5);
+            // also strides whose multiples k*stride (k < L) cross 2^31 or 2^32 although the stride itself fits 32 bits
+            static const uint64_t MID[] = {306783379, (1ull << 29) + 1, (1ull << 30) + 3, (1ull << 31) - 1, (1ull << 31) + 5, 0xFFFFFFFFull, 613566757};
+            if (*g::irange(0, 1)) big = MID[*g::irange(0, 6)];
+            if (w == 0) v[P_SA] = big; else if (w == 1) v[P_SB] = big; else v[P_SC] = big; }
         auto ia = *gen_idx(false), ib = *gen_idx(false), ic = *gen_idx(true);
         for (int k = 0; k < 8; k++) { v[P_IA + k] = ia[k]; v[P_IB + k] = ib[k]; v[P_IC + k] = ic[k]; }
         v[P_JUNK] = *g::uni64();
         // call form (see form_of): chosen here so that the in-place form gets matching positions
         int f = *rc::gen::weightedElement<int>({{8, 0}, {2, 1}, {2, 2}, {1, 3}, {2, 4}});
         v[P_JUNK] = (v[P_JUNK] & ~(7ull << 40)) | ((uint64_t)f << 40);
-        if (f == 2) { if (v[P_SC] >= (1ull << 32)) v[P_SC] = 3; v[P_SA] = v[P_SC]; for (int k = 0; k < 8; k++) v[P_IA + k] = v[P_IC + k]; }
+        if (f == 2) { if (v[P_SC] >= (1ull << 24)) v[P_SC] = 3; v[P_SA] = v[P_SC]; for (int k = 0; k < 8; k++) v[P_IA + k] = v[P_IC + k]; }
         return v;
     });
 }
@@ -298,10 +304,14 @@ int main(int argc, char **argv)
     std::map<std::string, std::vector<int>> fam;
     for (int i = 0; i < NROWS; i++) { std::string d = ROWS[i].decl; fam["c17." + d.substr(0, d.find('('))].push_back(i); }
     for (auto &kv : fam) { auto rows = kv.second; props.push_back({kv.first, [rows] { return gen_row_case(rows); }, body_row, (double)rows.size(), false, desc_row, 100}); }
+    // every overload in ONE property: calls of different routines interleave at random inside a process (state one routine leaves behind
+    // for another -- shared scratch storage -- only shows in such orders; a failure is replayed with its predecessor calls)
+    { std::vector<int> all; for (int i = 0; i < NROWS; i++) all.push_back(i); props.push_back({"c17.mixed", [all] { return gen_row_case(all); }, body_row, NROWS / 4.0, false, desc_row, 100}); }
     props.push_back({"c17.par", [] { return rc::gen::exec([] {
                          uint64_t size = *rc::gen::weightedOneOf<uint64_t>({{4, g::range(0, 70)}, {2, rc::gen::apply([](int k, int d) { return (uint64_t)((1ll << k) + d - 1 < 0 ? 0 : (1ll << k) + d - 1); }, g::irange(0, 16), g::irange(0, 2))}, {1, g::range(0, 70000)}});
                          int nth = *rc::gen::weightedOneOf<int>({{3, rc::gen::elementOf(std::vector<int>{INT_MIN, -1, 0, 1, 2, 3, 7, 64, 256})}, {2, g::irange(1, 70)}, {2, rc::gen::apply([size](int d) { long v = (long)size + d - 1; return (int)std::max<long>(-2, std::min<long>(v, 256)); }, g::irange(0, 2))}});
                          return std::vector<uint64_t>{(uint64_t)*g::irange(0, 1), size, (uint64_t)(int64_t)nth, *g::uni64(), (uint64_t)(*rc::gen::weightedElement<int>({{7, 0}, {1, 1}}) | *rc::gen::weightedElement<int>({{4, 0}, {1, 2}}))}; }); },
                      body_par, 12, false, desc_par, 100});
+    for (auto &p : props) p.mt_ok = true;
     return pbt::harness_main(argc, argv, "h_wrappers", props);
 }
